@@ -49,7 +49,8 @@ def main():
         for d in os.listdir(main_root):
             if d.startswith('home-') and d != 'home-build':
                 subprocess.run(['cp', '-a', os.path.join(main_root, d),
-                                os.path.join(root, d)], check=True)
+                                os.path.join(root, d)], check=False,
+                               stderr=subprocess.DEVNULL)
     env = dict(os.environ, VERIF_REPO=src, VERIF_BUILD_ROOT=root,
                VERIF_SEED=a.seed)
     rc_all = 0
